@@ -191,8 +191,63 @@ pub fn hash_pairs(rng: &mut StdRng, b: &Board) -> Vec<Value> {
     res
 }
 
+/// EVERY single-feature difference from one base board (any cell value on any square, side, each right,
+/// every e.p. mark on both e.p. ranks): together with XOR-linearity this is "one feature differs => the
+/// hash differs" for the key tables of the build under test.
+pub fn all_single_feature_pairs(b: &Board) -> Vec<Value> {
+    let a = *b.raw();
+    let mut res = Vec::new();
+    let item = |r: &RawBoard| -> Value { json!({"pos": raw_json(r), "scratch": hex(r.zobrist_hash()), "stored": ""}) };
+    let mut push = |kind: &str, y: &RawBoard| {
+        res.push(json!({"ev": "hashpair", "kind": kind, "a": item(&a), "b": item(y)}));
+    };
+    for sq in 0..64 {
+        for cell in 0..13 {
+            let c = Cell::from_index(cell);
+            if c != a.cells[sq] {
+                let mut y = a;
+                y.cells[sq] = c;
+                push("cell", &y);
+            }
+        }
+    }
+    let mut y = a;
+    y.side = y.side.inv();
+    push("side", &y);
+    for bit in 0..4 {
+        let mut y = a;
+        y.castling = CastlingRights::from_index(y.castling.index() ^ (1 << bit));
+        push("right", &y);
+    }
+    for side in [Color::White, Color::Black] {
+        // marks on the rank appropriate to `side`; compared with the same board (same side) without a mark
+        let rank = if side == Color::White { 3 } else { 4 };
+        let mut base = a;
+        base.side = side;
+        base.ep_source = None;
+        for f in 0..8 {
+            let mut y = base;
+            y.ep_source = Some(Coord::from_index(rank * 8 + f));
+            res.push(json!({"ev": "hashpair", "kind": "ep", "a": item(&base), "b": item(&y)}));
+            for g in (f + 1)..8 {
+                let mut z = base;
+                z.ep_source = Some(Coord::from_index(rank * 8 + g));
+                res.push(json!({"ev": "hashpair", "kind": "ep", "a": item(&y), "b": item(&z)}));
+            }
+        }
+    }
+    res
+}
+
 pub fn gen_sessions(prop: &str, n: usize, seed_rng: &mut StdRng, sink: &mut crate::Sink) {
     let positions = posgen::mixed(seed_rng, n);
+    if prop == "C05" {
+        for b in positions.iter().take(2) {
+            for e in all_single_feature_pairs(b) {
+                sink.emit(&e);
+            }
+        }
+    }
     for (i, b) in positions.iter().enumerate() {
         let evs = if i % 3 == 0 {
             all_moves_once(b)
